@@ -104,3 +104,257 @@ def h_log_pdf(I, fi):
     out = I.call_function(fi, [t], {}, force_inline=True)
     P.check("log_pdf.is-minus-log-count", P.z(I.to_num(out)) == P.z(-alg.sym("F_top")), "log_pdf(tree) = -log_count(tree)", kind="post")
     dsl.cover(I, "log_pdf")
+
+
+# ------------------------------------------------------------------------------------------------------------ sample / interleave_lists
+#
+# Ghost density: every random step adds its log-probability to rho.  Contracts of the random steps:
+#   rng.shuffle(x)                 uniform over the len(x)! orders                       rho -= log len(x)!
+#   interleave_lists(parts, rng)   uniform over the order-preserving interleavings       rho -= log multinomial(sizes)   (M-RIFFLE, below)
+#   sample(tree, rng, source=c)    induction hypothesis: density exp(-log_count(c)), a compatible order of subtree c
+# Post of sample(source=v):  the order is interleave(children's orders) followed by a shuffle of v's own data (own data after
+# all descendants), and rho = -(sum_c F(c) + log multinomial(child sizes) + log own(v)!) = -log_count(v).
+# Post of sample(source=None): interleave([interleave(top-level orders), shuffled outliers]), rho = -log_count(tree).
+# Since distinct random outcomes give distinct final orders (the sub-orders and the interleaving pattern can be read back from
+# the final order: M-INJ, trusted, exact enumeration as bounded stand-in), rho is the density of the order drawn.
+
+
+class Order(Model):
+    """an order expression: kind in {sub, shuffled, interleaved}; size = number of data points"""
+
+    def __init__(self, kind, size, parts=None, what=None):
+        self.kind, self.size, self.parts, self.what = kind, size, parts, what
+        self.suffix = []
+
+    def m___len__(self, I):
+        tot = self.size
+        for s_ in self.suffix:
+            tot = tot + s_.size
+        return tot
+
+    def m_extend(self, I, other):
+        if not isinstance(other, Order):
+            raise Unsupported("extend with something that is not an order")
+        self.suffix.append(other)
+
+
+def sample_registry():
+    r = dsl.Registry()
+    r.assumed += ["numpy Generator.shuffle is uniform over the n! orders (A-RNG)",
+                  "M-RIFFLE: interleave_lists' result is uniform over the order-preserving interleavings (structure of the function under contract; the counting step trusted, exact enumeration as bounded stand-in)",
+                  "M-INJ: the final order determines the sub-orders and interleaving patterns, so the path density is the density of the order (trusted; bounded stand-in)",
+                  "recursive calls of sample by its own contract (induction over the tree)"]
+    return r
+
+
+def h_sample(I, fi):
+    from pyvc.interp import Unsupported
+    P = I.P
+    t = PTree(I)
+    top = P.decide(2) == 1
+    dsl.cover(I, "sample.top" if top else "sample.inner")
+    st = {"rho": Num.const(0), "events": []}
+
+    class Rng(Model):
+        py_classes = ("Generator",)
+
+        def m_shuffle(self, I_, x):
+            if not isinstance(x, Order) or x.kind != "raw":
+                raise Unsupported("shuffle of something that is not a fresh list of data points")
+            x.kind = "shuffled"
+            st["rho"] = st["rho"] - lg(x.size + 1)
+            st["events"].append(("shuffle", x))
+
+    rng = Rng()
+
+    def sub_size(node):
+        return alg.raw_app("sub", I.to_num(node), sort="Int")
+
+    def rec(I_, args, kwargs, node):
+        src = kwargs.get("source", args[2] if len(args) > 2 else None)
+        if src is None or args[0] is not t or args[1] is not rng:
+            raise Unsupported("recursive sample call outside the contract (tree, rng, source=child)")
+        st["rho"] = st["rho"] - alg.raw_app("F", I_.to_num(src))
+        return Order("sub", sub_size(src), what=I_.to_num(src))
+
+    def interleave(I_, args, kwargs, node):
+        parts, r_ = args[0], args[1]
+        if r_ is not rng:
+            raise Unsupported("interleave_lists with another generator")
+        if isinstance(parts, SymSeq):
+            b = alg.fresh_bound()
+            e = parts.core_at(I_, b)
+            if parts.tail or not isinstance(e, Order):
+                raise Unsupported("interleave of a sequence that is not a sequence of orders")
+            total = alg.bigsum("", parts.core_len, e.size, bound=b)
+            st["rho"] = st["rho"] - (lg(total + 1) - alg.bigsum("", parts.core_len, lg(e.size + 1), bound=b))
+            o = Order("interleaved", total, parts=parts)
+        else:
+            items = list(parts)
+            if not all(isinstance(x, Order) and not x.suffix for x in items):
+                raise Unsupported("interleave of a list that is not a list of orders")
+            total = Num.const(0)
+            for x in items:
+                total = total + x.size
+            lm = lg(total + 1)
+            for x in items:
+                lm = lm - lg(x.size + 1)
+            st["rho"] = st["rho"] - (lm if items else Num.const(0))
+            o = Order("interleaved", total, parts=items)
+        st["events"].append(("interleave", o))
+        return o
+
+    I.registry.call_contracts[RPD + ".sample"] = rec
+    I.registry.call_contracts["phyclone.smc.utils.interleave_lists"] = interleave
+
+    # tree accessors returning fresh lists of data points
+    def get_data(I_, node):
+        v_ = alg.raw_app("own", I_.to_num(node), sort="Int")
+        I_.P.assume(I_.P.z(v_) >= 1)
+        return Order("raw", v_, what=("own", I_.to_num(node)))
+
+    t.m_get_data = get_data
+    outl = SymSeq("outliers", t.n_out, lambda i: ("out", i))
+    t.a_outliers = lambda I_: outl
+    I.registry.globals_override["list"] = lambda I_, x=(): Order("raw", x.length, what="outliers") if x is outl else list(I_.iterate(x))
+
+    def loop(I_, node, fr):
+        """for c in children: acc.append(sample(tree, rng, source=c)): one generic iteration, rho accumulates as a big sum"""
+        seq = I_.eval(node.iter, fr)
+        names = [k for k, v_ in fr.vars.items() if isinstance(v_, list) and not v_]
+        if not isinstance(seq, SymSeq) or seq.tail or len(names) != 1:
+            raise Unsupported("sample: unexpected loop shape")
+        b = alg.fresh_bound()
+        rho0, st["rho"] = st["rho"], Num.const(0)
+        I_.assign_target(node.target, seq.core_at(I_, b), fr)
+        I_.exec_block(node.body, fr)
+        lst = fr.vars[names[0]]
+        ok = isinstance(lst, list) and len(lst) == 1 and isinstance(lst[0], Order) and lst[0].kind == "sub" and (lst[0].what - I_.to_num(seq.core_at(I_, b))).is_zero()
+        P.check("sample.loop-collects-the-child-orders", ok, "each iteration appends the order drawn for that child / top-level clone", kind="post")
+        if not ok:
+            raise PathEnd()
+        delta = st["rho"]
+        st["rho"] = rho0 + alg.bigsum("", seq.core_len, delta, bound=b)
+        fr.vars[names[0]] = SymSeq("orders(%s)" % seq.key, seq.core_len, lambda i: Order("sub", sub_size(seq.core_at(I_, i)), what=I_.to_num(seq.core_at(I_, i))))
+        st["loop_seq"] = seq
+
+    I.registry.loop_invariants[(fi.qualname, 0)] = loop
+    I.registry.loop_invariants[(fi.qualname, 1)] = loop
+    b = alg.bound_index()
+    if top:
+        out = I.call_function(fi, [t, rng], {}, force_inline=True)
+        rootsub = lambda: alg.raw_app("sub", alg.raw_app("root", b, sort="Int"), sort="Int")  # noqa
+        n_tree = alg.bigsum("", t.R, rootsub())
+        spec = lg(n_tree + t.n_out + 1) - alg.bigsum("", t.R, lg(rootsub() + 1)) + alg.bigsum("", t.R, alg.raw_app("F", alg.raw_app("root", b, sort="Int")))
+        ok = isinstance(out, Order) and out.kind == "interleaved" and not out.suffix and isinstance(out.parts, list) and len(out.parts) == 2 \
+            and out.parts[0].kind == "interleaved" and isinstance(out.parts[0].parts, SymSeq) and out.parts[0].parts.core_len.key() == t.R.key() \
+            and out.parts[1].kind == "shuffled" and out.parts[1].what == "outliers"
+        P.check("sample.top-structure", ok, "the order is an interleaving of (the interleaved top-level clone orders) with (the shuffled outliers): outliers anywhere", kind="post")
+        P.check("sample.top-density", alg.is_identically_zero(st["rho"] + spec) or P.z(st["rho"]) == P.z(-spec),
+                "log-density of the draw = -(log N! - sum_r log size(r)! + sum_r log_count(r)) = -log_count(tree)", kind="post")
+    else:
+        v = alg.sym("v", "Int")
+        out = I.call_function(fi, [t, rng], {"source": v}, force_inline=True)
+        n = alg.raw_app("nch", v, sort="Int")
+        sub = lambda: alg.raw_app("sub", alg.raw_app("child", b, sort="Int"), sort="Int")  # noqa
+        spec = alg.bigsum("", n, alg.raw_app("F", alg.raw_app("child", b, sort="Int"))) + lg(alg.bigsum("", n, sub()) + 1) - alg.bigsum("", n, lg(sub() + 1)) \
+            + lg(alg.raw_app("own", v, sort="Int") + 1)
+        ok = isinstance(out, Order) and out.kind == "interleaved" and isinstance(out.parts, SymSeq) and out.parts.core_len.key() == n.key() and len(out.suffix) == 1 \
+            and out.suffix[0].kind == "shuffled" and out.suffix[0].what[0] == "own" and (out.suffix[0].what[1] - v).is_zero()
+        P.check("sample.subtree-structure", ok, "the order is the interleaved orders of the children's subtrees followed by a shuffle of the clone's own data points (own data after all descendants)", kind="post")
+        P.check("sample.subtree-density", alg.is_identically_zero(st["rho"] + spec) or P.z(st["rho"]) == P.z(-spec),
+                "log-density of the draw = -(sum_c log_count(c) + log multinomial(child subtree sizes) + log n_v!) = -log_count(v)", kind="post")
+
+
+def h_interleave(I, fi):
+    """interleave_lists(lists, rng): the sentinel word holds i exactly len(lists[i]) times, is shuffled once by rng, and the k-th
+    output is the next unused element of lists[word[k]] (so each list's order is preserved and every element is used once)."""
+    from pyvc.interp import Frame, Unsupported
+    P = I.P
+    L = alg.sym("n_lists", "Int")
+    P.assume(P.z(L) >= 0)
+    ev = []
+
+    class Part(Model):
+        def __init__(self, i):
+            self.i = I.to_num(i)
+
+        def m___len__(self, I_):
+            v = alg.raw_app("len_part", self.i, sort="Int")
+            I_.P.assume(I_.P.z(v) >= 0)
+            return v
+
+        def m_pop(self, I_, k=None):
+            ev.append(("pop", self.i, k))
+            return ("elem-of", self.i)
+
+    parts = {}
+
+    def part(i):
+        return parts.setdefault(I.to_num(i).key(), Part(i))
+
+    class Lists(SymSeq):
+        def getitem(self, I_, key):
+            return part(key)
+
+    lists = Lists("lists", L, part)
+
+    class Repeat(Model):
+        def __init__(self, x, n):
+            self.x, self.n = x, n
+
+    I.registry.globals_override["repeat"] = lambda I_, x, n=None: Repeat(x, n)
+
+    class Word(Model):
+        def m_extend(self, I_, r):
+            ev.append(("extend", r))
+
+        def comprehension(self, I_, node, gen, fr):
+            s_ = alg.sym(I_.P.fresh_name("letter"), "Int")
+            I_.P.assume(z3.And(I_.P.z(s_) >= 0, I_.P.z(s_) < I_.P.z(L)))
+            sub = Frame(fr.module, fr.func, fr.cls)
+            sub.vars = dict(fr.vars)
+            I_.assign_target(gen.target, s_, sub)
+            if gen.ifs:
+                raise Unsupported("filtered comprehension over the sentinel word")
+            ev.append(("comp-start", s_))
+            e = I_.eval(node.elt, sub)
+            ev.append(("comp-elt", e))
+            return ("result-of-comprehension",)
+
+    word = Word()
+    made = []
+
+    def empty_list(I_, node):
+        if not made:
+            made.append(1)
+            return word
+        return None
+
+    I.registry.empty_list_model = empty_list
+
+    class Rng(Model):
+        py_classes = ("Generator",)
+
+        def m_shuffle(self, I_, x):
+            ev.append(("shuffle", x))
+
+    rng = Rng()
+    I.registry.generic_loops.add(fi.qualname)
+    res = I.call_function(fi, [lists, rng], {}, force_inline=True)
+    dsl.cover(I, "interleave.ran")
+    gens = P.ghost.get("generic_indices", [])
+    kinds = [e[0] for e in ev]
+    P.check("interleave.event-order", kinds == ["extend", "shuffle", "comp-start", "pop", "comp-elt"] and len(gens) == 1,
+            "the word is filled, shuffled exactly once, and only then consumed", kind="post")
+    if kinds != ["extend", "shuffle", "comp-start", "pop", "comp-elt"] or len(gens) != 1:
+        return
+    i = gens[0]
+    r = ev[0][1]
+    P.check("interleave.letter-i-len-times", isinstance(r, Repeat) and (I.to_num(r.x) - i).is_zero() and isinstance(r.n, Num) and (r.n - alg.raw_app("len_part", i, sort="Int")).is_zero(),
+            "list i contributes the letter i exactly len(lists[i]) times", kind="post")
+    P.check("interleave.shuffles-the-word", ev[1][1] is word, "the generator shuffles the sentinel word (uniform over its arrangements)", kind="post")
+    s_ = ev[2][1]
+    P.check("interleave.takes-front-of-the-chosen-list", (ev[3][1] - s_).is_zero() and ev[3][2] is not None and I.to_num(ev[3][2]).is_zero() and ev[4][1] == ("elem-of", ev[3][1]),
+            "output k is the first unused element of lists[word[k]]", kind="post")
+    P.check("interleave.returns-the-comprehension", res == ("result-of-comprehension",), "the result is that sequence of elements", kind="post")
